@@ -192,7 +192,7 @@ def x_aol_keeper_msgServer_DeleteWriter : List String := ["assign ctx := sdk.Unw
 def x_aol_types_DefaultGenesis : List String := ["return _", "kv Owners", "kv Topics", "kv Writers", "kv Records"]
 
 /-- x/aol/types.GenesisState.Validate -/
-def x_aol_types_GenesisState_Validate : List String := ["range gs.Owners", "if err != nil", "assign err := compkey.DecodeFromString(keyStr, GenesisKeySeparator, &key)", "call compkey.DecodeFromString(keyStr, GenesisKeySeparator, &key)", "return err", "if err != nil", "assign err := validateCanonicalKey(keyStr, &key)", "call validateCanonicalKey(keyStr, &key)", "return err", "range gs.Topics", "if err != nil", "assign err := compkey.DecodeFromString(keyStr, GenesisKeySeparator, &key)", "call compkey.DecodeFromString(keyStr, GenesisKeySeparator, &key)", "return err", "if err != nil", "assign err := validateCanonicalKey(keyStr, &key)", "call validateCanonicalKey(keyStr, &key)", "return err", "if err != nil", "assign err := topic.Validate()", "call topic.Validate()", "return err", "range gs.Writers", "if err != nil", "assign err := compkey.DecodeFromString(keyStr, GenesisKeySeparator, &key)", "call compkey.DecodeFromString(keyStr, GenesisKeySeparator, &key)", "return err", "if err != nil", "assign err := validateCanonicalKey(keyStr, &key)", "call validateCanonicalKey(keyStr, &key)", "return err", "if err != nil", "assign err := writer.Validate()", "call writer.Validate()", "return err", "range gs.Records", "if err != nil", "assign err := compkey.DecodeFromString(keyStr, GenesisKeySeparator, &key)", "call compkey.DecodeFromString(keyStr, GenesisKeySeparator, &key)", "return err", "if err != nil", "assign err := validateCanonicalKey(keyStr, &key)", "call validateCanonicalKey(keyStr, &key)", "return err", "if err != nil", "assign err := record.Validate()", "call record.Validate()", "return err", "return nil"]
+def x_aol_types_GenesisState_Validate : List String := ["assign topicsOfOwner := _", "assign writersOfTopic := _", "assign recordsOfTopic := _", "assign topicKeyStr := _", "return _", "call compkey.EncodeToString(_, GenesisKeySeparator)", "kv OwnerAddress=owner", "kv TopicName=topicName", "range gs.Owners", "if err != nil", "assign err := compkey.DecodeFromString(keyStr, GenesisKeySeparator, &key)", "call compkey.DecodeFromString(keyStr, GenesisKeySeparator, &key)", "return err", "if err != nil", "assign err := validateCanonicalKey(keyStr, &key)", "call validateCanonicalKey(keyStr, &key)", "return err", "range gs.Topics", "if err != nil", "assign err := compkey.DecodeFromString(keyStr, GenesisKeySeparator, &key)", "call compkey.DecodeFromString(keyStr, GenesisKeySeparator, &key)", "return err", "if err != nil", "assign err := validateCanonicalKey(keyStr, &key)", "call validateCanonicalKey(keyStr, &key)", "return err", "if err != nil", "assign err := topic.Validate()", "call topic.Validate()", "return err", "call compkey.EncodeToString(_, GenesisKeySeparator)", "kv OwnerAddress=key.OwnerAddress", "range gs.Writers", "if err != nil", "assign err := compkey.DecodeFromString(keyStr, GenesisKeySeparator, &key)", "call compkey.DecodeFromString(keyStr, GenesisKeySeparator, &key)", "return err", "if err != nil", "assign err := validateCanonicalKey(keyStr, &key)", "call validateCanonicalKey(keyStr, &key)", "return err", "if err != nil", "assign err := writer.Validate()", "call writer.Validate()", "return err", "call topicKeyStr(key.OwnerAddress, key.TopicName)", "range gs.Records", "if err != nil", "assign err := compkey.DecodeFromString(keyStr, GenesisKeySeparator, &key)", "call compkey.DecodeFromString(keyStr, GenesisKeySeparator, &key)", "return err", "if err != nil", "assign err := validateCanonicalKey(keyStr, &key)", "call validateCanonicalKey(keyStr, &key)", "return err", "if err != nil", "assign err := record.Validate()", "call record.Validate()", "return err", "assign topicKey := topicKeyStr(key.OwnerAddress, key.TopicName)", "call topicKeyStr(key.OwnerAddress, key.TopicName)", "assign topic,ok := gs.Topics[topicKey]", "if !ok", "return _", "call fmt.Errorf(_, keyStr)", "if key.Offset >= topic.TotalRecords", "return _", "call fmt.Errorf(_, keyStr, topic.TotalRecords)", "range gs.Topics", "if topic.TotalRecords != recordsOfTopic[keyStr]", "return _", "call fmt.Errorf(_, keyStr, topic.TotalRecords, recordsOfTopic[keyStr])", "if topic.TotalWriters != writersOfTopic[keyStr]", "return _", "call fmt.Errorf(_, keyStr, topic.TotalWriters, writersOfTopic[keyStr])", "range writersOfTopic", "if !ok", "assign _,ok := gs.Topics[keyStr]", "return _", "call fmt.Errorf(_, keyStr)", "range topicsOfOwner", "assign owner,ok := gs.Owners[keyStr]", "if !ok || owner.TotalTopics != n", "return _", "call fmt.Errorf(_, keyStr, n)", "range gs.Owners", "if owner.TotalTopics != topicsOfOwner[keyStr]", "return _", "call fmt.Errorf(_, keyStr, owner.TotalTopics, topicsOfOwner[keyStr])", "return nil"]
 
 /-- x/aol/types.MsgAddRecordRequest.GetSignBytes -/
 def x_aol_types_MsgAddRecordRequest_GetSignBytes : List String := ["assign bz := ModuleCdc.MustMarshalJSON(msg)", "call ModuleCdc.MustMarshalJSON(msg)", "return _", "call sdk.MustSortJSON(bz)"]
